@@ -105,9 +105,18 @@ func parseY(text string) (*yFile, error) {
 		}
 	}
 	cur := ""
+	depth := 0 // open braces of a semantic action that continues on the following lines
 	for _, l := range strings.Split(secs[1], "\n") {
+		if depth > 0 || strings.HasPrefix(l, "\t") || (cur != "" && strings.HasPrefix(l, "{")) {
+			// semantic actions are printed verbatim (first line indented, the rest as written)
+			depth += strings.Count(l, "{") - strings.Count(l, "}")
+			if depth < 0 {
+				depth = 0
+			}
+			continue
+		}
 		switch {
-		case strings.HasPrefix(l, "\t"), strings.HasPrefix(l, "//"), strings.TrimSpace(l) == "":
+		case strings.HasPrefix(l, "//"), strings.TrimSpace(l) == "":
 			continue
 		case l == ";":
 			cur = ""
